@@ -1,5 +1,6 @@
 import TinyFlux.Mirror.Getters
 import TinyFlux.Mirror.TagsNE
+import TinyFlux.Mirror.DbGetters
 /-!
 # C07 over the translated source: the getters of `tinyflux/index.py`
 
@@ -50,6 +51,32 @@ theorem translated_states_are_dict_shaped (g : GSelf) :
     have e : g'' = g' := by rw [h1] at h; injection h
     subst e
     exact ⟨h2, update_ne g u hg hne g'' h1⟩
+
+/-- the getters of `TinyFlux` itself (database.py), as translated: `len(db)`, `get_measurements`, `get_field_keys`,
+    `get_tag_keys`, `get_field_values`, `get_timestamps` — index path (the translated index getter, sorted where the API
+    sorts) and scan path (the loop over storage with the measurement filter) — return what the Model's `step` answers on the
+    `absDB`-read state (`Mirror.model_getters_are_step`), which `Props/C07.lean` proves to be the Spec's answer -/
+theorem translated_db_getters (norm : Point → Point) (g : DSelf) (hg : GWF g._index) (hne : TagsNE g._index._tags)
+    (hwf : ∀ p ∈ g._storage._items, WFPoint p) (m : Option String) (hm : m ≠ some "") :
+    DatabaseImpl.__len__ g = .ok (modelLen (absDB norm g))
+    ∧ DatabaseImpl.get_measurements g = .ok (modelMeasurements (absDB norm g))
+    ∧ DatabaseImpl.get_field_keys g m = .ok (modelFieldKeys (absDB norm g) m)
+    ∧ DatabaseImpl.get_tag_keys g m = .ok (modelTagKeys (absDB norm g) m)
+    ∧ (∀ k, DatabaseImpl.get_field_values g k m = .ok (modelFieldValues (absDB norm g) k m))
+    ∧ (DatabaseImpl.get_timestamps g m).map (fun l => l.map (·.us)) = .ok (modelTimestamps (absDB norm g) m) :=
+  ⟨len_ok norm g, db_get_measurements_ok norm g hg, db_get_field_keys_ok norm g hg m hm,
+   db_get_tag_keys_ok norm g hg hne m hm, fun k => db_get_field_values_ok norm g hg hwf k m hm,
+   db_get_timestamps_ok norm g hg m hm⟩
+
+/-- … and those `model…` functions are literally what `State.step` answers -/
+theorem model_getters_are_the_models_step (s : State) (k : String) (m : Option String) :
+    (s.step .len).2 = .nat (modelLen s)
+    ∧ (s.step .getMeasurements).2 = .strs (modelMeasurements s.readOp)
+    ∧ (s.step (.getFieldKeys m)).2 = .strs (modelFieldKeys s.readOp m)
+    ∧ (s.step (.getTagKeys m)).2 = .strs (modelTagKeys s.readOp m)
+    ∧ (s.step (.getFieldValues k m)).2 = .nums (modelFieldValues s.readOp k m)
+    ∧ (s.step (.getTimestamps m)).2 = .times (modelTimestamps s.readOp m) :=
+  model_getters_are_step s k m
 
 /-- non-vacuity: the getters of the index the translated `build` produces for two concrete points -/
 example : ∃ g', IndexImpl.build (IndexImpl.__init__ true)
